@@ -81,7 +81,7 @@ func Cases(cfg Config, dry *Result, variants []Variant, extraScenarios, rawDial 
 type EnumOptions struct {
 	Dial           DialFunc  // nil: MirrorDial
 	Configs        []Config  // nil: all eight
-	Variants       []Variant // nil: quick = each variant on its own, thorough = their cross product
+	Variants       []Variant // nil: quick = default and late Accept, thorough = the cross product of the three switches
 	ExtraScenarios bool      // accept-queue timeout, backpressure, listener close with queued connections, forced private network
 	RawDialFaults  bool      // the raw dial itself fails (refused, times out, caller gives up as it connects)
 }
@@ -112,7 +112,7 @@ func Enumerate(t *testing.T, r *vrep.Result, o EnumOptions) {
 
 	variants := o.Variants
 	if variants == nil {
-		variants = []Variant{{}, {LateAccept: true}, {InClosesFirst: true}, {ShortDial: true}}
+		variants = []Variant{{}, {LateAccept: true}}
 		if vrep.Thorough() {
 			variants = AllVariants()
 		}
